@@ -700,7 +700,7 @@ fn build_card(ops: &[Op], pos: &mut usize, depth: usize) -> Card {
             0 => Card::scalar_int(o.2),
             1 => Card::string_card(format!("s{}", o.1)),
             2 => CardBody::NativeFunction(format!("nf{}", o.1 % 3)).into(),
-            3 => Card::read_var("g"),
+            3 => Card::read_var(match o.1 % 3 { 0 => "g".to_string(), 1 => format!("l{}.p{}", o.1 % 3, o.2.unsigned_abs() % 2), _ => format!("l{}.{}.q", o.1 % 3, o.2.unsigned_abs() % 4) }),
             4 => CardBody::ScalarNil.into(),
             5 => CardBody::CreateTable.into(),
             6 => Card::function_value("helper"),
@@ -722,15 +722,25 @@ fn build_card(ops: &[Op], pos: &mut usize, depth: usize) -> Card {
         11 => CardBody::Array(vec![sub(pos), sub(pos)]).into(),
         12 => Card::composite_card("c", vec![sub(pos), sub(pos)]),
         13 => Card::return_card(sub(pos)),
-        14 => CardBody::Closure(Box::new(Function::default().with_arg("x").with_cards(vec![sub(pos)]))).into(),
+        14 => if o.1 % 2 == 0 {
+            CardBody::Closure(Box::new(Function::default().with_arg("x").with_cards(vec![sub(pos)]))).into()
+        } else {
+            // a closure inside a closure that captures locals of the enclosing function (inherited upvalues)
+            let inner: Card = CardBody::Closure(Box::new(Function::default().with_cards(vec![
+                Card::set_global_var("g", Card::read_var(format!("l{}", o.2.unsigned_abs() % 3))),
+                Card::set_global_var("h", Card::read_var(format!("l{}", (o.2.unsigned_abs() + 1) % 3))),
+            ]))).into();
+            CardBody::Closure(Box::new(Function::default().with_cards(vec![Card::set_var("inner", inner), sub(pos)]))).into()
+        },
         _ => CardBody::Not(cao_lang::compiler::UnaryExpression { card: Box::new(sub(pos)) }).into(),
     }
 }
 fn run_decode_walk(ops: &[Op]) {
     let last = ops.len() - 1;
     let mut pos = 0;
-    let mut cards = vec![];
-    while pos < ops.len() && cards.len() < 4 { cards.push(build_card(ops, &mut pos, 0)); }
+    // locals l0..l2 exist in main so that variable reads resolve to locals / upvalues, not only globals
+    let mut cards: Vec<Card> = (0..3).map(|k| Card::set_var(format!("l{k}"), Card::scalar_int(k))).collect();
+    while pos < ops.len() && cards.len() < 7 { cards.push(build_card(ops, &mut pos, 0)); }
     let module = Module {
         functions: vec![
             ("main".to_string(), Function::default().with_cards(cards)),
